@@ -386,6 +386,16 @@ func arith(op string, a, b *Term) *Term {
 		if b.Int != nil && b.Int.Cmp(big.NewInt(1)) == 0 {
 			return a
 		}
+		if (a.Int != nil && a.Int.Sign() == 0) || (b.Int != nil && b.Int.Sign() == 0) {
+			return IntLit(0)
+		}
+		// ite(c, 1, 0) * x = ite(c, x, 0)
+		if a.Op == "ite" && a.Args[1].Int != nil && a.Args[2].Int != nil && a.Args[2].Int.Sign() == 0 && a.Args[1].Int.Cmp(big.NewInt(1)) == 0 {
+			return Ite(a.Args[0], b, IntLit(0))
+		}
+		if b.Op == "ite" && b.Args[1].Int != nil && b.Args[2].Int != nil && b.Args[2].Int.Sign() == 0 && b.Args[1].Int.Cmp(big.NewInt(1)) == 0 {
+			return Ite(b.Args[0], a, IntLit(0))
+		}
 	}
 	return App(op, SInt, a, b)
 }
@@ -410,6 +420,15 @@ func Mod(a, b *Term) *Term {
 	if a.Int != nil && b.Int != nil && b.Int.Sign() > 0 {
 		_, m := new(big.Int).DivMod(a.Int, b.Int, new(big.Int))
 		return BigLit(m)
+	}
+	// (x div 2^k) mod 2  is the k-th bit of x
+	if b.Int != nil && b.Int.Cmp(big.NewInt(2)) == 0 && a.Op == "div" {
+		if a.Args[1].Op == "pow2" {
+			return App("bitval", SInt, a.Args[0], a.Args[1].Args[0])
+		}
+		if d := a.Args[1].Int; d != nil && d.Sign() > 0 && new(big.Int).And(d, new(big.Int).Sub(d, big.NewInt(1))).Sign() == 0 && d.BitLen() <= 8 {
+			return App("bitval", SInt, a.Args[0], IntLit(int64(d.BitLen()-1)))
+		}
 	}
 	return App("mod", SInt, a, b)
 }
